@@ -108,6 +108,12 @@ def fixed_values():
         ('key_int', {1: 2}), ('key_none', {None: 1}), ('key_bool', {True: 1}), ('key_float', {1.5: 2}),
         ('key_mixed_collide', {1: 'i', '1': 's'}), ('int_enum', Colour.RED), ('str_subclass', CustomStr('s')),
         ('dict_subclass', MyDict(a=1)), ('key_int_enum', {Colour.RED: 1}),
+        # twins: different Python values with the SAME JSON text as a value above (whatever is remembered by JSON text,
+        # repr or hash confuses them): list/tuple, str/int/None/bool keys, int/float/bool
+        ('tuple_ints3', (1, 2, 3)), ('list_1_2', [1, 2]), ('dict_list_value', {'a': [1, 2]}), ('key_str_1', {'1': 2}),
+        ('key_str_null', {'null': 1}), ('key_str_true', {'true': 1}), ('key_str_1_5', {'1.5': 2}), ('float_5', 5.0),
+        ('int1', 1), ('float_1', 1.0), ('dict_a_true', {'a': True}), ('dict_a_float', {'a': 1.0}),
+        ('tuple_mixed', (1, 'a', None, 2.5, True)), ('dict_nested_tuple', {'a': 1, 'x': (1, 2.5, 3)}),
         # not serialisable
         ('bytes', b'x'), ('bytearray', bytearray(b'y')), ('set', {1, 2}), ('frozenset', frozenset([1])),
         ('key_tuple', {(1, 2): 3}), ('key_bytes', {b'k': 1}), ('object', object()), ('custom', Custom(3)),
@@ -305,6 +311,7 @@ def documented(cls, value, d_ok, schema, types, subtype):
 def verdict_cases(res, vals, vlist, lines, impl_out, only=None):
     ser_cache = {}
     first = []      # clause (1) violations, reported ahead of the others
+    first_pass = {}
     for (vlabel, cls, valline, v, schema, types, subtype) in vlist:
         lines.append(valline)
         impl_out.append('ok')
@@ -344,6 +351,7 @@ def verdict_cases(res, vals, vlist, lines, impl_out, only=None):
                     res.violations.append(Violation(
                         f'verdict-not-documented:{cls}',
                         f"{vlabel}.is_valid({label}, wrap={w}) = {got}, documented meaning on the carried data: {doc}", case))
+            first_pass[(vlabel, label)] = verdicts['b']
             res.count('value_dumps_ok' if d_ok else 'value_not_dumps_ok')
             # (1) same verdict wrapped / bare
             for w in WRAPS[1:]:
@@ -352,6 +360,21 @@ def verdict_cases(res, vals, vlist, lines, impl_out, only=None):
                         f'verdict-differs-wrapped:{cls}',
                         f"{vlabel}: bare {label!r} -> {verdicts['b']}, wrapped in event kind {w!r} -> {verdicts[w]}",
                         {'kind': 'verdict', 'validator': vlabel, 'value': label, 'wrap': w}))
+                    break
+        # (4) the verdict is a function of the datum: the same validator object asked again, in the reverse order, answers the
+        # same (a long-lived receiver sees the same and look-alike data again and again)
+        if not only or only.get('second_pass'):
+            for h, (label, value) in reversed(list(enumerate(vals))):
+                if label.startswith('deep_') or (only and only.get('value') != label):
+                    continue
+                if (vlabel, label) not in first_pass:
+                    continue
+                again = impl_verdict(v, value)
+                if again != first_pass[(vlabel, label)]:
+                    res.violations.append(Violation(
+                        f'verdict-depends-on-history:{cls}',
+                        f"{vlabel}.is_valid({label}) answered {first_pass[(vlabel, label)]} the first time and {again} when asked again "
+                        f"after the other values", {'kind': 'verdict', 'validator': vlabel, 'value': label, 'wrap': 'b', 'second_pass': True}))
                     break
     k = getattr(res, '_c1', 0)          # clause (1) violations stay in discovery order, ahead of the others
     res.violations[k:k] = first
